@@ -258,7 +258,8 @@ inductive Step
 /-- What the matching loop is in the middle of. -/
 inductive Pend
   | none
-  | one (sp : OptSpec)                          -- an optional with `nargs=None`: exactly one `A` must follow
+  | one (pre : List Step) (sp : OptSpec)        -- an optional with `nargs=None`: exactly one `A` must follow; `pre`: the
+                                                -- flags of the same cluster (`-vO x`), taken only once the match succeeded
   | star (sp : OptSpec) (acc : List String)     -- an optional with `nargs='*'`: every following `A`
   | swallow                                     -- the positional just took an `A`: a directly following `--` is its
   | posDash (p : OptSpec)                       -- the positional took the `--`: the next `A` (if any) is its value
@@ -283,13 +284,15 @@ def chain (tbl : List OptSpec) : OptSpec → String → List Char → List Step 
         else chain tbl sp' (String.ofList ['-', c]) e (acc ++ [.act sp []])
     else ([.fail (.ignoredExplicit (actName sp))], none)
 
-/-- An optional without explicit argument: what it waits for. -/
-def pendOf (sp : OptSpec) : List Step × Pend :=
+/-- An optional without explicit argument (`pre`: the flags in front of it in the same cluster): the actions to take now,
+and what it waits for.  `consume_optional` takes the actions of a cluster only after the last one has matched its
+argument strings. -/
+def pendOf (pre : List Step) (sp : OptSpec) : List Step × Pend :=
   match sp.nargs with
-  | .zero => ([.act sp []], .none)
-  | .one => ([], .one sp)
-  | .optional => ([], .one sp)      -- not used by this parser (the translator refuses it)
-  | .zeroOrMore => ([], .star sp [])
+  | .zero => (pre ++ [.act sp []], .none)
+  | .one => ([], .one pre sp)
+  | .optional => ([], .one pre sp)      -- not used by this parser (the translator refuses it)
+  | .zeroOrMore => (pre, .star sp [])
 
 def hasFail : List Step → Bool
   | [] => false
@@ -304,12 +307,12 @@ first `--`), a `--` right behind its value is swallowed (handing it on would cha
 def sched (tbl : List OptSpec) : Option OptSpec → Pend → List Tok → List Step
   | pos, .none, [] => match pos with | some p => [.act p []] | none => []
   | pos, .swallow, [] => match pos with | some p => [.act p []] | none => []
-  | _, .one sp, [] => [.fail (.expectedOneArg (actName sp))]
+  | _, .one _ sp, [] => [.fail (.expectedOneArg (actName sp))]
   | pos, .star sp acc, [] => .act sp acc :: (match pos with | some p => [.act p []] | none => [])
   | _, .posDash p, [] => [.act p ["--"]]
-  | pos, .one sp, t :: rest =>
+  | pos, .one pre sp, t :: rest =>
     (match t with
-     | .arg s => .act sp [s] :: sched tbl pos .none rest
+     | .arg s => pre ++ .act sp [s] :: sched tbl pos .none rest
      | _ => [.fail (.expectedOneArg (actName sp))])
   | _, .posDash p, t :: rest =>
     (match t with
@@ -334,8 +337,8 @@ def sched (tbl : List OptSpec) : Option OptSpec → Pend → List Tok → List S
       if hasFail cr.1 then flush ++ cr.1 else
       (match cr.2 with
        | none => flush ++ cr.1 ++ sched tbl pos .none rest
-       | some sp' => flush ++ cr.1 ++ (pendOf sp').1 ++ sched tbl pos (pendOf sp').2 rest)
-    | .opt _ (some sp) _ none => flush ++ (pendOf sp).1 ++ sched tbl pos (pendOf sp).2 rest
+       | some sp' => flush ++ (pendOf cr.1 sp').1 ++ sched tbl pos (pendOf cr.1 sp').2 rest)
+    | .opt _ (some sp) _ none => flush ++ (pendOf [] sp).1 ++ sched tbl pos (pendOf [] sp).2 rest
 
 /-! ## 1e. `take_action` -/
 
@@ -505,14 +508,20 @@ def splitSlash (cs : List Char) : List String :=
     | c :: r, cur => if c = '/' then String.ofList cur.reverse :: go r [] else go r (c :: cur)
   go cs []
 
-/-- `LanguageContextBuilder.set_target_language(...).create()`: a language of the package; an experimental one only with
-`--experimental-languages`.  (No `--target-language`: the builder falls back to the extension — not modelled.) -/
+/-- `LanguageClassLoader.to_language_name`: a leading `nunavut.lang.` is dropped. -/
+def toLanguageName (s : String) : String :=
+  if "nunavut.lang.".toList.isPrefixOf s.toList then String.ofList (s.toList.drop 13) else s
+
+/-- `LanguageContextBuilder.set_target_language(...).create()`: no `--target-language` means
+`DEFAULT_TARGET_LANGUAGE` (`c`); a language of the package; an experimental one only with `--experimental-languages`. -/
 def langOf (env : Environ) (ns : Namespace) : Option LangRow :=
+  let named (l : String) (xl : Val) : Option LangRow :=
+    match env.langs.find? fun r => r.name = toLanguageName l with
+    | some row => if row.experimental && !truthy xl then none else some row
+    | none => none
   match ns.lookup "target_language", ns.lookup "experimental_languages" with
-  | some (.sc (.str l)), some xl =>
-    (match env.langs.find? fun r => r.name = l with
-     | some row => if row.experimental && !truthy xl then none else some row
-     | none => none)
+  | some (.sc (.str l)), some xl => named l xl
+  | some .none, some xl => named "c" xl
   | _, _ => none
 
 /-- The `Cli.Args` record `ArgparseRunner.__init__` works from.  `none`: the runner raises before it reaches a generator
@@ -575,16 +584,20 @@ def guardHolds (a : Args) : Guard → Bool
   | .genNsTypes => Cli.generateNamespaceTypes a
   | .notGenNsTypes => !Cli.generateNamespaceTypes a
 
-/-- The calls run method `method` makes, in order, with evaluated keyword arguments. -/
-def callsOf (specs : List CallSpec) (method : String) (a : Args) (ns : Namespace) : Option (List Call) :=
-  match specs with
+/-- The calls a list of call sites makes, in order, with evaluated keyword arguments; a site is passed over when one of
+its enclosing `if`s fails. -/
+def callsOfSpecs (a : Args) (ns : Namespace) : List CallSpec → Option (List Call)
   | [] => some []
   | c :: r =>
-    if c.method = method && c.guards.all (guardHolds a) then do
-      let kw ← evalKwargs ns c.kwargs
-      let rest ← callsOf r method a ns
-      pure (⟨c.target, c.fn, kw⟩ :: rest)
-    else callsOf r method a ns
+    if c.guards.all (guardHolds a) then
+      match evalKwargs ns c.kwargs, callsOfSpecs a ns r with
+      | some kw, some rest => some (⟨c.target, c.fn, kw⟩ :: rest)
+      | _, _ => none
+    else callsOfSpecs a ns r
+
+/-- The calls run method `method` makes. -/
+def callsOf (specs : List CallSpec) (method : String) (a : Args) (ns : Namespace) : Option (List Call) :=
+  callsOfSpecs a ns (specs.filter fun c => c.method = method)
 
 def Call.kw (c : Call) (k : String) : Option Val := c.kwargs.lookup k
 
@@ -612,15 +625,11 @@ def evalCtor (ns : Namespace) : PPCtor → Option PP
   | .trim => some .trim
   | .limitEmptyLines d => (ns.lookup d).map .limitEmptyLines
   | .setFileMode d => (ns.lookup d).map .setFileMode
-  | .extProgram d ad => do
-    let prog ← match ← ns.lookup d with
-      | .sc p => some p
-      | _ => none
-    let extra ← match ← ns.lookup ad with
-      | .none => some []
-      | .list l => some l
-      | _ => none
-    pure (.extProgram (prog :: extra))
+  | .extProgram d ad =>
+    match ns.lookup d, ns.lookup ad with
+    | some (.sc prog), some .none => some (.extProgram [prog])
+    | some (.sc prog), some (.list extra) => some (.extProgram (prog :: extra))
+    | _, _ => none
 
 /-- `_build_post_processor_list_from_args` -/
 def buildPPs (ns : Namespace) : List PPRule → Option (List PP)
